@@ -1,17 +1,20 @@
 // Package c12 interprets the C12 op language against the real core/circuitbreaker package:
-// thread programs (TryPass / OnRequestComplete calls on one real breaker) are run under the
+// thread programs (requests checked by circuitbreaker.Slot / completed through MetricStatSlot on the
+// resource's real breaker, and rule reloads through circuitbreaker.LoadRules) are run under the
 // deterministic yield-hook scheduler (verifharness/internal/sched, prefixes "cb."), and after every
-// granted step the breaker's shared words are read back, so that the trace can be compared token by
-// token with the Lean small-step model (lean/Sentinel/Model/BreakerRace.lean).
+// granted step the shared words of the breaker object acted upon — and of the live one, if that is
+// another object after a reload — are read back, so that the trace can be compared token by token with
+// the Lean small-step model (lean/Sentinel/Model/BreakerRace.lean).
 //
 //	cb.new <ec|er|sr> <retryTimeoutMs> <minRequestAmount> <threshold: int for ec, f:<bits> for er/sr> <probeNum> <maxRtMs>
-//	thread <tid> <call>+        call = tp | tpb | c:<rt>:ok | c:<rt>:err
+//	thread <tid> <item>+        item = tp | tpb | c:<rt>:ok | c:<rt>:err | rd:<retryTimeoutMs>:<minReq>:<threshold>:<probeNum>:<maxRtMs>
 //	sched <entry>*              entry = <tid> | tick:<ms>
 //	results | log | final
 //
-// The breaker is built with StatIntervalMs = 10^9, one bucket, and the case's virtual clock starts on a
-// multiple of 10^9 ms: everything a case records lands in one bucket of the breaker's own leap array,
-// which is what the model's abstract window (bad, total) assumes.
+// Rules have StatIntervalMs = 10^9, one bucket, and the case's virtual clock starts on a multiple of
+// 10^9 ms: everything a case records lands in one bucket of the breaker's leap array, which is what the
+// model's abstract window (bad, total) assumes.  A reload keeps strategy and statistic geometry (so the
+// new rule is always stat-reusable); whether it is "equal" (breaker object kept) is the code's decision.
 package c12
 
 import (
@@ -21,20 +24,29 @@ import (
 	"strconv"
 	"strings"
 	"time"
+	_ "unsafe" // go:linkname
 
 	"github.com/alibaba/sentinel-golang/core/base"
 	cb "github.com/alibaba/sentinel-golang/core/circuitbreaker"
+	"github.com/alibaba/sentinel-golang/util/verifhook"
 	"verifharness/internal/sched"
 	"verifharness/internal/vh"
 )
 
 const intervalMs = 1000000000
 
+// the rule manager's own lookup (what Slot.Check / MetricStatSlot.OnCompleted use): read-only access for
+// observing which breaker object is live after a rule reload
+//
+//go:linkname getBreakersOfResource github.com/alibaba/sentinel-golang/core/circuitbreaker.getBreakersOfResource
+func getBreakersOfResource(resource string) []cb.CircuitBreaker
+
 type call struct {
 	tryPass bool
 	blocked bool
 	rt      uint64
 	err     bool
+	reload  *cb.Rule // non-nil: LoadRules with this rule, parked at the harness's own yield point cb.x.reload before
 }
 
 type note struct{ prev, to cb.State }
@@ -55,12 +67,15 @@ type Interp struct {
 	clk     *vh.Clock
 	base    uint64 // start of the current case (ms), a multiple of intervalMs
 	ncase   uint64
-	br      cb.CircuitBreaker
+	kind    string
+	res     string
 	rw      *base.ResourceWrapper
+	objs    []cb.CircuitBreaker // every breaker object the resource has had in this case, in order of appearance
 	progs   [][]call
 	log     []note
 	logTid  []int
 	results [][]bool
+	bound   []int // per thread: index of the object its call under way was looked up as (-1: none)
 	ran     bool
 }
 
@@ -76,7 +91,7 @@ func (it *Interp) Reset() {
 	it.ncase++
 	it.base = 1900000000000 + it.ncase*intervalMs
 	it.clk.SetMs(it.base)
-	it.br, it.progs, it.log, it.logTid, it.results, it.ran = nil, nil, nil, nil, nil, false
+	it.kind, it.objs, it.progs, it.log, it.logTid, it.results, it.ran = "", nil, nil, nil, nil, nil, false
 }
 
 func stc(s cb.State) string {
@@ -93,7 +108,7 @@ func stc(s cb.State) string {
 
 var points = map[string]string{
 	"cb.state.get": "sg", "cb.state.set": "ss", "cb.state.cas": "sc", "cb.retry.load": "rl", "cb.retry.store": "rs",
-	"cb.probe.add": "pa", "cb.probe.reset": "pr", "cb.probe.load": "pl",
+	"cb.probe.add": "pa", "cb.probe.reset": "pr", "cb.probe.load": "pl", "cb.x.reload": "rd",
 }
 
 func tf(b bool) string {
@@ -103,21 +118,73 @@ func tf(b bool) string {
 	return "f"
 }
 
-// word reads an unexported uint64 field of the breaker (promoted from circuitBreakerBase); only called
+// word reads an unexported uint64 field of breaker object k (promoted from circuitBreakerBase); only called
 // while no worker is running.
-func (it *Interp) word(name string) uint64 {
-	return reflect.ValueOf(it.br).Elem().FieldByName(name).Uint()
+func (it *Interp) word(k int, name string) uint64 {
+	return reflect.ValueOf(it.objs[k]).Elem().FieldByName(name).Uint()
 }
 
-func (it *Interp) dl() string {
-	d := it.word("nextRetryTimestampMs")
+func (it *Interp) dl(k int) string {
+	d := it.word(k, "nextRetryTimestampMs")
 	if d == 0 {
 		return "-"
 	}
 	return strconv.FormatUint(d-it.base, 10)
 }
 
-func parseCall(s string) (call, bool) {
+// live returns the index of the resource's current breaker object (registering it when seen for the first time).
+func (it *Interp) live() int {
+	bs := getBreakersOfResource(it.res)
+	if len(bs) != 1 {
+		panic(fmt.Sprintf("resource has %d breakers", len(bs)))
+	}
+	for i, b := range it.objs {
+		if b == bs[0] {
+			return i
+		}
+	}
+	it.objs = append(it.objs, bs[0])
+	return len(it.objs) - 1
+}
+
+func (it *Interp) rule(t []string) *cb.Rule {
+	if len(t) != 5 {
+		return nil
+	}
+	to, e1 := strconv.ParseUint(t[0], 10, 32)
+	mr, e2 := strconv.ParseUint(t[1], 10, 64)
+	pn, e3 := strconv.ParseUint(t[3], 10, 64)
+	mx, e4 := strconv.ParseUint(t[4], 10, 64)
+	if e1 != nil || e2 != nil || e3 != nil || e4 != nil || to == 0 || to > 100000 {
+		return nil
+	}
+	r := &cb.Rule{Resource: it.res, RetryTimeoutMs: uint32(to), MinRequestAmount: mr,
+		StatIntervalMs: intervalMs, StatSlidingWindowBucketCount: 1, ProbeNum: pn, MaxAllowedRtMs: mx}
+	switch it.kind {
+	case "ec":
+		k, err := strconv.ParseUint(t[2], 10, 64)
+		if err != nil {
+			return nil
+		}
+		r.Strategy, r.Threshold = cb.ErrorCount, float64(k)
+	case "er", "sr":
+		f, ok := vh.ParseFBits(t[2])
+		if !ok {
+			return nil
+		}
+		r.Threshold = f
+		if it.kind == "er" {
+			r.Strategy = cb.ErrorRatio
+		} else {
+			r.Strategy = cb.SlowRequestRatio
+		}
+	default:
+		return nil
+	}
+	return r
+}
+
+func (it *Interp) parseCall(s string) (call, bool) {
 	p := strings.Split(s, ":")
 	switch {
 	case len(p) == 1 && p[0] == "tp":
@@ -130,6 +197,12 @@ func parseCall(s string) (call, bool) {
 			return call{}, false
 		}
 		return call{rt: rt, err: p[2] == "err"}, true
+	case len(p) == 6 && p[0] == "rd":
+		r := it.rule(p[1:])
+		if r == nil {
+			return call{}, false
+		}
+		return call{reload: r}, true
 	}
 	return call{}, false
 }
@@ -138,47 +211,23 @@ func (it *Interp) newBreaker(t []string) bool {
 	if len(t) != 7 {
 		return false
 	}
-	to, e1 := strconv.ParseUint(t[2], 10, 32)
-	mr, e2 := strconv.ParseUint(t[3], 10, 64)
-	pn, e3 := strconv.ParseUint(t[5], 10, 64)
-	mx, e4 := strconv.ParseUint(t[6], 10, 64)
-	if e1 != nil || e2 != nil || e3 != nil || e4 != nil || to == 0 || to > 100000 {
-		return false
-	}
-	r := &cb.Rule{Resource: fmt.Sprintf("c12-%d", it.ncase), RetryTimeoutMs: uint32(to), MinRequestAmount: mr,
-		StatIntervalMs: intervalMs, StatSlidingWindowBucketCount: 1, ProbeNum: pn, MaxAllowedRtMs: mx}
-	switch t[1] {
-	case "ec":
-		k, err := strconv.ParseUint(t[4], 10, 64)
-		if err != nil {
-			return false
-		}
-		r.Strategy, r.Threshold = cb.ErrorCount, float64(k)
-	case "er", "sr":
-		f, ok := vh.ParseFBits(t[4])
-		if !ok {
-			return false
-		}
-		r.Threshold = f
-		if t[1] == "er" {
-			r.Strategy = cb.ErrorRatio
-		} else {
-			r.Strategy = cb.SlowRequestRatio
-		}
-	default:
+	it.kind = t[1]
+	it.res = fmt.Sprintf("c12-%d", it.ncase)
+	r := it.rule(t[2:])
+	if r == nil {
+		it.kind = ""
 		return false
 	}
 	if err := cb.IsValidRule(r); err != nil {
 		panic("invalid rule: " + err.Error())
 	}
-	bs := cb.BuildResourceCircuitBreaker(r.Resource, []*cb.Rule{r}, nil)
-	if len(bs) != 1 {
-		panic("no breaker built")
-	}
-	it.br = bs[0]
-	it.rw = base.NewResourceWrapper(r.Resource, base.ResTypeCommon, base.Inbound)
-	it.progs, it.log, it.logTid, it.results, it.ran = nil, nil, nil, nil, false
 	cb.ClearStateChangeListeners()
+	if _, err := cb.LoadRules([]*cb.Rule{r}); err != nil {
+		panic(err)
+	}
+	it.rw = base.NewResourceWrapper(it.res, base.ResTypeCommon, base.Inbound)
+	it.objs, it.progs, it.log, it.logTid, it.results, it.ran = nil, nil, nil, nil, nil, false
+	it.live()
 	cb.RegisterStateChangeListeners(listener{&it.log})
 	return true
 }
@@ -187,26 +236,41 @@ func (it *Interp) worker(tid int) func() {
 	prog := it.progs[tid]
 	return func() {
 		for _, c := range prog {
-			if c.tryPass {
+			switch {
+			case c.reload != nil:
+				it.bound[tid] = -1
+				verifhook.Yield("cb.x.reload")
+				if _, err := cb.LoadRules([]*cb.Rule{c.reload}); err != nil {
+					panic(err)
+				}
+			case c.tryPass:
+				// the breaker is looked up by Slot.Check itself; no yield point lies between here and that lookup
+				it.bound[tid] = it.live()
 				ctx := base.NewEmptyEntryContext()
 				ctx.Resource = it.rw
 				e := base.NewSentinelEntry(ctx, it.rw, nil)
 				ctx.SetEntry(e)
-				r := it.br.TryPass(ctx)
-				it.results[tid] = append(it.results[tid], r)
+				r := cb.DefaultSlot.Check(ctx)
+				it.results[tid] = append(it.results[tid], r == nil || !r.IsBlocked())
 				if c.blocked {
 					// a later rule-check slot (or another breaker of the resource) blocks the request
 					ctx.RuleCheckResult = base.NewTokenResultBlocked(base.BlockTypeCircuitBreaking)
+				} else {
+					ctx.RuleCheckResult = nil
 				}
 				e.Exit()
-			} else {
-				var err error
+			default:
+				it.bound[tid] = it.live()
+				ctx := base.NewEmptyEntryContext()
+				ctx.Resource = it.rw
 				if c.err {
-					err = errors.New("x")
+					ctx.SetError(errors.New("x"))
 				}
-				it.br.OnRequestComplete(c.rt, err)
+				ctx.PutRt(c.rt)
+				cb.DefaultMetricStatSlot.OnCompleted(ctx)
 			}
 		}
+		it.bound[tid] = -1
 	}
 }
 
@@ -230,19 +294,24 @@ func (it *Interp) runSched(toks []string) string {
 		}
 		es = append(es, sched.T(int(id)))
 	}
-	ws := make([]func(), len(it.progs))
-	it.results = make([][]bool, len(it.progs))
+	n := len(it.progs)
+	ws := make([]func(), n)
+	it.results = make([][]bool, n)
+	it.bound = make([]int, n)
+	prev := make([]int, n) // bound[] as it was when the step began
 	for i := range ws {
 		ws[i] = it.worker(i)
+		it.bound[i], prev[i] = -1, -1
 	}
 	var out []string
-	nres := make([]int, len(it.progs))
+	nres := make([]int, n)
+	nobj := len(it.objs) // objects known when the step began
 	rep := sched.Run(ws, es, sched.Options{
 		Prefixes: []string{"cb."},
 		// the only wall-clock dependence of the whole pipeline is the scheduler's watchdog: keep it far above any
 		// pause of the machine (a fired watchdog shows up as an unreadable trace, i.e. as an alarm)
 		StepTimeout: 5 * time.Minute,
-		OnTick:   func(ns uint64) { it.clk.Ns += ns },
+		OnTick:      func(ns uint64) { it.clk.Ns += ns },
 		AfterStep: func(s sched.Step) {
 			from, to := points[s.From], points[s.To]
 			if s.Start {
@@ -251,9 +320,24 @@ func (it *Interp) runSched(toks []string) string {
 			if s.Done {
 				to = "done"
 			}
+			live := it.live()
+			x := prev[s.Tid]
+			if x < 0 {
+				x = it.bound[s.Tid]
+			}
+			if x < 0 {
+				x = live
+			}
 			var b strings.Builder
-			fmt.Fprintf(&b, "%d:%s>%s:%s:%s:%d:%d", s.Tid, from, to, stc(it.br.CurrentState()), it.dl(),
-				it.word("curProbeNumber"), it.clk.CurrentTimeMillis()-it.base)
+			fmt.Fprintf(&b, "%d:%s>%s:o%d:%s:%s:%d:%d", s.Tid, from, to, x, stc(it.objs[x].CurrentState()), it.dl(x),
+				it.word(x, "curProbeNumber"), it.clk.CurrentTimeMillis()-it.base)
+			if live != x {
+				fmt.Fprintf(&b, ":V%d,%s,%s,%d", live, stc(it.objs[live].CurrentState()), it.dl(live), it.word(live, "curProbeNumber"))
+			}
+			if len(it.objs) > nobj {
+				r := it.objs[live].BoundRule()
+				fmt.Fprintf(&b, ":N%d,%d,%d", live, r.RetryTimeoutMs, r.ProbeNum)
+			}
 			for len(it.logTid) < len(it.log) {
 				n := it.log[len(it.logTid)]
 				it.logTid = append(it.logTid, s.Tid)
@@ -263,6 +347,8 @@ func (it *Interp) runSched(toks []string) string {
 				b.WriteString(":R" + tf(it.results[s.Tid][nres[s.Tid]]))
 			}
 			out = append(out, b.String())
+			prev[s.Tid] = it.bound[s.Tid]
+			nobj = len(it.objs)
 		},
 	})
 	it.ran = true
@@ -288,12 +374,12 @@ func (it *Interp) Step(t []string, op string) string {
 		}
 		return ""
 	case "thread":
-		if it.br == nil || len(t) < 3 || t[1] != strconv.Itoa(len(it.progs)) || len(it.progs) >= 8 {
+		if it.kind == "" || len(t) < 3 || t[1] != strconv.Itoa(len(it.progs)) || len(it.progs) >= 8 {
 			return "bad-op"
 		}
 		var p []call
 		for _, s := range t[2:] {
-			c, ok := parseCall(s)
+			c, ok := it.parseCall(s)
 			if !ok {
 				return "bad-op"
 			}
@@ -302,7 +388,7 @@ func (it *Interp) Step(t []string, op string) string {
 		it.progs = append(it.progs, p)
 		return ""
 	case "sched":
-		if it.br == nil {
+		if it.kind == "" {
 			return "bad-op"
 		}
 		r := it.runSched(t[1:])
@@ -337,8 +423,9 @@ func (it *Interp) Step(t []string, op string) string {
 		if !it.ran {
 			return "bad-op"
 		}
-		return fmt.Sprintf("st=%s dl=%s probe=%d clk=%d", stc(it.br.CurrentState()), it.dl(), it.word("curProbeNumber"),
-			it.clk.CurrentTimeMillis()-it.base)
+		l := it.live()
+		return fmt.Sprintf("st=%s dl=%s probe=%d clk=%d live=%d", stc(it.objs[l].CurrentState()), it.dl(l), it.word(l, "curProbeNumber"),
+			it.clk.CurrentTimeMillis()-it.base, l)
 	}
 	return "bad-op"
 }
